@@ -67,6 +67,8 @@ structure Chan where
   items : List Item := []   -- everything ever pushed, in order
   taken : Nat := 0          -- how many the receiver has consumed
   rxAlive : Bool := true
+  finScrub : Bool := false  -- ghost: finish() asked for a scrub (the stream was not Done)
+  timedOut : Bool := false  -- ghost: a next() call timed out (it asked for a scrub)
   deriving Repr, DecidableEq
 
 inductive Link where | up | eof | garbage
@@ -149,9 +151,9 @@ inductive Ev where
   | poll (i : Nat)
   -- search stream: `rx.recv()` polled, with the deadline of this `next()` call if any
   | recv (c : Nat) (deadline : Option Nat)
-  -- search stream: `id_scrub_tx.send(last_id)` of `finish_inner`
-  | scrub (id : Nat)
-  | dropRx (c : Nat)
+  -- search stream: `finish_inner`: `id_scrub_tx.send(last_id)` unless the stream is Done (the
+  -- stream state machine, C10, decides `scrub`), then the receiver is dropped
+  | finish (c : Nat) (scrub : Bool)
   | dropHandles
   -- driver, one per `select!` arm
   | drvScrub
@@ -245,6 +247,8 @@ def step (s : St) (e : Ev) : Option (St × Obs) :=
     match s.chans[c]? with
     | none => none
     | some ch =>
+      -- a SearchStream exists only once `start()` has returned Ok, i.e. the acknowledgement was polled
+      if (s.ops[ch.opIdx]?.bind (·.res)) ≠ some .ack then none else
       if !ch.rxAlive then none
       else match ch.items[ch.taken]? with
         | some it => some ({ s with chans := s.chans.set c { ch with taken := ch.taken + 1 } }, .item (some it))
@@ -255,17 +259,23 @@ def step (s : St) (e : Ev) : Option (St × Obs) :=
               if s.now ≥ d then
                 match s.ops[ch.opIdx]? with
                 | some o =>
-                  if s.drv = .running then some ({ s with scrubQ := s.scrubQ ++ [o.id] }, .timeout)
+                  if s.drv = .running then
+                    some ({ s with scrubQ := s.scrubQ ++ [o.id], chans := s.chans.set c { ch with timedOut := true } }, .timeout)
                   else some (s, .sendErr)
                 | none => none
               else some (s, .pending)
             | none => some (s, .pending)
-  | .scrub id =>
-    if s.drv = .running then some ({ s with scrubQ := s.scrubQ ++ [id] }, .none) else some (s, .sendErr)
-  | .dropRx c =>
+  | .finish c scrub =>
     match s.chans[c]? with
     | none => none
-    | some ch => some ({ s with chans := s.chans.set c { ch with rxAlive := false } }, .none)
+    | some ch =>
+      if (s.ops[ch.opIdx]?.bind (·.res)) ≠ some .ack then none else
+      if !ch.rxAlive then none else
+      match s.ops[ch.opIdx]? with
+      | none => none
+      | some o =>
+        let q := if scrub ∧ s.drv = .running then s.scrubQ ++ [o.id] else s.scrubQ
+        some ({ s with scrubQ := q, chans := s.chans.set c { ch with rxAlive := false, finScrub := scrub } }, .none)
   | .dropHandles => some ({ s with handles := false }, .none)
   | .drvScrub =>
     if s.drv ≠ .running then none else
